@@ -582,9 +582,10 @@ class Mp4Atom(ObjectWithFields):
                 options.log.debug('Failed to read atom type. pos=%d', position)
             return None
         if size == 0:
+            # box extends to the end of the file
             pos = src.tell()
             src.seek(0, 2)  # seek to end
-            size = src.tell() - pos
+            size = src.tell() - position
             src.seek(pos)
         elif size == 1:
             size_ext = src.read(8)
@@ -602,6 +603,11 @@ class Mp4Atom(ObjectWithFields):
             atom_type = f'UUID({uuid})'
         else:
             atom_type = str(atom_type, 'ascii')
+        if size < (src.tell() - position):
+            # a box can not be smaller than its own header. Accepting it would
+            # stop the caller's cursor from advancing
+            raise ValueError(
+                f'Invalid size {size} for box "{atom_type}" at position {position}')
         return {
             "atom_type": atom_type,
             "position": position,
